@@ -91,10 +91,18 @@ RcvLit ==
   /\ UNCHANGED <<basis, target, blk, s2, off, lastMatch, toks, trailer, result, pc>>
 RcvRef ==
   /\ result = "run" /\ rpos < Len(toks) /\ ~IsLit(toks[rpos + 1])
+  /\ toks[rpos + 1].ref \in 0..NB - 1
   /\ LET i == toks[rpos + 1].ref IN
        out' = out \o SubSeq(basis, i * blk + 1, i * blk + BlockLen(basis, blk, i))
   /\ rpos' = rpos + 1
   /\ UNCHANGED <<basis, target, blk, s2, off, lastMatch, toks, trailer, result, pc>>
+(* receiver.go: a reference to a block the basis does not have (ReadAt fails): *)
+(* the transfer of this file fails; cannot happen with an undamaged stream     *)
+RcvBadRef ==
+  /\ result = "run" /\ rpos < Len(toks) /\ ~IsLit(toks[rpos + 1])
+  /\ toks[rpos + 1].ref \notin 0..NB - 1
+  /\ result' = "corrupt"
+  /\ UNCHANGED <<basis, target, blk, s2, off, lastMatch, toks, trailer, rpos, out, pc>>
 (* receiver.go: compare MD4(seed || written bytes) with the trailer, then rename *)
 RcvEnd ==
   /\ result = "run" /\ pc = "done" /\ rpos = Len(toks)
@@ -106,7 +114,7 @@ Terminated == result # "run" /\ UNCHANGED vars
 MatchAny == \E i \in 0..NB - 1 : Match(i)
 
 Next == SendWhole \/ MatchAny \/ Slide \/ FlushEarly \/ Finish
-        \/ RcvLit \/ RcvRef \/ RcvEnd \/ Terminated
+        \/ RcvLit \/ RcvRef \/ RcvBadRef \/ RcvEnd \/ Terminated
 Spec == Init /\ [][Next]_vars /\ WF_vars(Next)
 
 --------------------------------------------------------------------------
